@@ -59,6 +59,8 @@ func (e *vExpr) String() string {
 	switch e.op {
 	case "lit":
 		return `"x"`
+	case "lit2":
+		return `"a\"\\b"`
 	case "prod":
 		return fmt.Sprintf("P%d", e.prod)
 	case "seq":
@@ -85,6 +87,9 @@ func (e *vExpr) String() string {
 	return "?"
 }
 
+// vWithEscapedLiteral adds a second literal, a"\b, whose text needs escaping (used by the C14 stand-in).
+var vWithEscapedLiteral = false
+
 var vUnary = []string{"opt", "star", "plus", "nonempty", "neg", "lookpos", "lookneg", "cap"}
 
 // vEnum enumerates all expressions with exactly `size` operator/leaf nodes over nprod productions.
@@ -95,6 +100,9 @@ func vEnum(size, nprod int, memo map[int][]*vExpr) []*vExpr {
 	var out []*vExpr
 	if size == 1 {
 		out = append(out, &vExpr{op: "lit"})
+		if vWithEscapedLiteral {
+			out = append(out, &vExpr{op: "lit2"})
+		}
 		for i := 0; i < nprod; i++ {
 			out = append(out, &vExpr{op: "prod", prod: i})
 		}
@@ -120,7 +128,7 @@ func vEnum(size, nprod int, memo map[int][]*vExpr) []*vExpr {
 
 func specNullable(e *vExpr, bodies []*vExpr, nul []bool) bool {
 	switch e.op {
-	case "lit", "neg", "nonempty":
+	case "lit", "lit2", "neg", "nonempty":
 		return false
 	case "prod":
 		return nul[e.prod]
@@ -220,6 +228,8 @@ func vBuild(e *vExpr, prods []*strct) node {
 	switch e.op {
 	case "lit":
 		return &literal{s: "x", t: lexer.EOF}
+	case "lit2":
+		return &literal{s: "a\"\\b", t: lexer.EOF}
 	case "prod":
 		return prods[e.prod]
 	case "seq":
